@@ -192,3 +192,11 @@ package internal
 //@   loop 2 invariant -1 <= rangeindex
 //@   loop 2 iteration-ensures [every-entry-taken-in-order] len(kvs) == at_head(len(kvs)) + 1 && kvs[at_head(len(kvs))].Key == bytes2str(at_head(resp.Kvs[rangeindex + 1]).Key) && kvs[at_head(len(kvs))].Val == bytes2str(at_head(resp.Kvs[rangeindex + 1]).Value)
 //@   ensures [record-replaced-by-the-snapshot] calls(c.handleChanges) == 1 && arg(c.handleChanges, 1) == key && arg(c.handleChanges, 2) == local(kvs)
+
+// newCluster: every cluster has its own (empty) record, listener table, watch group and shutdown channel - nothing
+// is shared between the clusters of different endpoint sets.
+//@ func newCluster
+//@   prop C15
+//@   opaque getClusterKey, NewRoutineGroup
+//@   ensures [own-empty-tables] result != nil && fresh(result) && result.values != nil && fresh(result.values) && result.listeners != nil && fresh(result.listeners) && forallk(k, string, !has(result.values, k) && !has(result.listeners, k))
+//@   ensures [for-these-endpoints] result.endpoints == endpoints && calls(getClusterKey, endpoints) == 1 && result.key == ret(getClusterKey) && calls(threading.NewRoutineGroup) == 1 && result.watchGroup == ret(threading.NewRoutineGroup) && result.done != nil && cap(result.done) == 0
